@@ -737,7 +737,12 @@ def rule_single_owner(ctx, P, r):
                     continue
                 g = P.fns[c.callee]
                 fr = O.frees.get(g.name, set())
-                if not fr or g.name in ('@liberasurecode_encode_cleanup', '@liberasurecode_decode_cleanup', '@check_and_free_buffer', '@free_fragment_buffer'):
+                if g.name in ('@liberasurecode_encode_cleanup', '@liberasurecode_decode_cleanup', '@check_and_free_buffer', '@free_fragment_buffer'):
+                    continue
+                if not fr:
+                    if any(t.endswith('*') for t in c.optys):
+                        n += 1
+                        r.ok(f'{f.name}: {g.name} (line {c.line}) frees none of its pointer arguments', func=f.name, loc=c.loc, trivial=True)
                     continue
                 # return classes under which g frees
                 for pi in sorted(fr):
